@@ -942,7 +942,7 @@ func TestC08Reader(t *testing.T) {
 	rep.Extra["deep_nesting_smallest_crashing_depth"] = int64(minCrashDepth)
 	rep.Extra["deep_nesting_largest_surviving_depth"] = int64(maxOKDepth)
 	if ctr["messages_delivered"] == 0 || ctr["model_must_stop_oversize"] == 0 || ctr["model_all_frames_ok"] == 0 || ctr["streams_fully_delivered"] == 0 || ctr["model_must_stop_truncated"] == 0 {
-		core.HarnessError("vacuous: %v", ctr)
+		rep.Vacuous("vacuous: %v", ctr)
 	}
 	rep.Finish()
 }
